@@ -232,7 +232,7 @@ Section Kinds.
             destruct kk; try discriminate.
             destruct bcs as [|cx [|callee [|[[| | | | | |] args] [|targs [|? ?]]]]]; try discriminate.
             destruct optional.
-            + destruct (member_parts callee) as [[obj prop]|].
+            + destruct (oc_callee_member callee) as [[[obj prop] mopt]|].
               * destruct (oc_get_ident c obj s) as [[oid|] s1']; [|discriminate].
                 destruct (oc_get_ident c _ s1') as [[mid|] s2']; [|discriminate].
                 inversion Er; subst. unfold mk, is_kind; simpl. neutral_neq.
